@@ -1,0 +1,40 @@
+//go:build verif
+
+// Contracts for package domain_matcher, read by /verif/govc (comment-only file).
+
+package domain_matcher
+
+// C11 (sets are matched independently): a set is looked up in the trie / automaton / regex list exactly
+// when ITS OWN bit is still clear - an already matched set is skipped, and no other set's bit can make a
+// set be skipped; the trie is asked for the reversed "^name" key and the regexes for the lower-cased name.
+//@ func (*AhocorasickSlimtrie).MatchDomainBitmap
+//@   nonilcheck
+//@   dyncalls noeffect
+//@   trustframe
+//@   requires len(n.trie) == len(n.ac) && len(n.regexp) == len(n.ac) && len(n.ac) <= 1000000
+//@   requires forall k int {n.validTrieIndexes[k]} :: 0 <= k && k < len(n.validTrieIndexes) ==> 0 <= n.validTrieIndexes[k] && n.validTrieIndexes[k] < len(n.ac)
+//@   requires forall k int {n.validAcIndexes[k]} :: 0 <= k && k < len(n.validAcIndexes) ==> 0 <= n.validAcIndexes[k] && n.validAcIndexes[k] < len(n.ac)
+//@   requires forall k int {n.validRegexpIndexes[k]} :: 0 <= k && k < len(n.validRegexpIndexes) ==> 0 <= n.validRegexpIndexes[k] && n.validRegexpIndexes[k] < len(n.ac)
+//@   ensures len(bitmap) * 32 >= len(n.ac) && fresh(bitmap)
+//@   at call Trie).HasPrefix#1 assert 0 <= i && i / 32 < len(bitmap) && (bitmap[i/32] & (uint32(1) << (i%32))) == 0 && a1 == suffixTrieDomain
+//@   at call Contains#1 assert 0 <= i && i / 32 < len(bitmap) && (bitmap[i/32] & (uint32(1) << (i%32))) == 0
+//@   at call MatchString#1 assert 0 <= i && i / 32 < len(bitmap) && (bitmap[i/32] & (uint32(1) << (i%32))) == 0 && a1 == domain
+//@   loop 1
+//@     invariant bitmap != nil && fresh(bitmap) && len(bitmap) * 32 >= len(n.ac) && len(bitmap) == N
+//@   loop 2
+//@     invariant bitmap != nil && fresh(bitmap) && len(bitmap) * 32 >= len(n.ac) && len(bitmap) == N
+//@   loop 3
+//@     invariant bitmap != nil && fresh(bitmap) && len(bitmap) * 32 >= len(n.ac) && len(bitmap) == N
+//@   loop 4
+//@     invariant bitmap != nil && fresh(bitmap) && len(bitmap) * 32 >= len(n.ac) && len(bitmap) == N
+
+// the trie key of a name: the name (without a trailing '$') reversed, byte by byte
+//@ func ToSuffixTrieString
+//@   let t() = strings.TrimSuffix(s, "$")
+//@   ensures len(result) == len(t())
+//@   ensures forall k int {result[k]} :: 0 <= k && k < len(t()) ==> result[k] == t()[len(t()) - 1 - k]
+//@   loop 1
+//@     invariant 0 <= $iter && $iter < half && half == len(b) / 2 && len(b) == len(t()) && b != nil && fresh(b)
+//@     invariant forall k int {b[k]} :: 0 <= k && k < $iter ==> b[k] == t()[len(t()) - 1 - k]
+//@     invariant forall k int {b[k]} :: len(b) - $iter <= k && k < len(b) ==> b[k] == t()[len(t()) - 1 - k]
+//@     invariant forall k int {b[k]} :: $iter <= k && k < len(b) - $iter ==> b[k] == t()[k]
